@@ -70,6 +70,7 @@ type RawB struct {
 	Val  *V       `json:"val,omitempty"`
 	Root string   `json:"root,omitempty"`
 	Trav []TravStep `json:"trav,omitempty"`
+	KeepEOF bool  `json:"keep_eof,omitempty"`
 }
 
 type OpM struct {
